@@ -83,7 +83,7 @@ fn main() {
     }
     match (args[1].as_str(), args[2].as_str()) {
         ("gen", "C16") => c16::generate(seed, &tier, &mut out),
-        ("gen", "C12") => { c12::generate("C12", seed, &tier, &mut out); c01::generate("C12", seed, &tier, &mut out) }
+        ("gen", "C12") => { c12::generate("C12", seed, &tier, &mut out); c12::generate_live("C12", seed, &tier, &mut out); c01::generate("C12", seed, &tier, &mut out) }
         ("gen", "C06") => c12::generate("C06", seed, &tier, &mut out),
         ("gen", "C20") => c12::generate("C20", seed, &tier, &mut out),
         ("gen", "C01") => c01::generate("C01", seed, &tier, &mut out),
